@@ -24,6 +24,7 @@ EXPLANATION = (
     "C19.4: the BOM table is evaluated as constants: no entry is shadowed by an earlier prefix, each BOM decodes to "
     "U+FEFF (or nothing) under its paired codec. OHLCV aggregation arithmetic is not claimed."
     " C19.2 also: every flush consumes the skip-first-bar flag."
+    " C19.2 also: every feeder of push_trade passes the trade's own timestamp."
 )
 TRUSTED = ["CPython ast parser", "sa.absint weak-ordering interpreter", "stdlib codecs constants",
            "datetime has microsecond resolution"]
